@@ -241,6 +241,28 @@ def run_shard(ctx):
                                     sig="%s/%s%s-%s%s/%s/decimal" % (shape, px[0], px[1], py[0], py[1], spelling),
                                     feats=["shape." + shape, "values.decimal", "spelling." + spelling])
                         check_case(ctx, case)
+    # directed lines: a <line> running right-to-left and/or bottom-to-top (x2 < x1, y2 < y1). Start, end and centre are the
+    # same three points whatever the direction, so every pair of them must still give x1/y1/x2/y2 of that segment; a length
+    # is unsigned and says nothing about direction, so pairs with 'l' are left out here
+    for px in [("s", "e"), ("s", "c"), ("e", "c")]:
+        for py in [("s", "e"), ("s", "c"), ("e", "c")]:
+            for spelling in ("long", "alt", "short"):
+                structural += 1
+                if not ctx.mine(structural):
+                    continue
+                for _ in range(k):
+                    if ctx.out_of_time():
+                        return
+                    b = sample_box(rng, "line")
+                    flip = rng.choice(["x", "y", "xy"])
+                    box = Box(b.x2 if "x" in flip else b.x1, b.y2 if "y" in flip else b.y1,
+                              b.x1 if "x" in flip else b.x2, b.y1 if "y" in flip else b.y2)
+                    items = build_attrs(rng, "line", px, py, box, spelling)
+                    exp = expected_native("line", box)
+                    case = dict(input=make_doc("line", items).encode(), shape="line", expected={a: fmt(v) for a, v in exp.items()},
+                                sig="line/directed-%s/%s%s-%s%s/%s" % (flip, px[0], px[1], py[0], py[1], spelling),
+                                feats=["shape.line", "line.directed." + flip, "pair.x." + "".join(px), "pair.y." + "".join(py)])
+                    check_case(ctx, case)
     # deltas: dx/dy/dxy translate, dw/dh/dwh resize (absolute and percent), equivalence of shorthand and longhand
     for shape in SHAPES:
         for form in ("dx-dy", "dxy2", "dxy1", "dw-dh", "dwh2", "dwh1", "dwh-pct"):
